@@ -117,6 +117,12 @@ def materialize(interp, name, td, depth=0):
             ctx.register_input(name, "const", None)
             return None
         return materialize(interp, name, td.args[0], depth + 1)
+    if k == "list" and td.args[1] is None:
+        if td.args[0].kind != "int" or td.args[0].args != (None, None):
+            raise Unsupported("open lists are lists of unconstrained ints")
+        s = z3.Const(name, SeqSort)
+        ctx.register_input(name, "intlist", s)
+        return PyList([], prefix=s)
     if k == "list":
         t, maxlen = td.args
         n = z3.Int(name + "#len")
